@@ -597,7 +597,12 @@ class Subspace(IdealPoint):
         return DualPoint(orthed[..., 0, :])
 
     def _data_with_dual(self):
-        midpoints = np.sum(self.ideal_basis, axis=-2) / self.ideal_basis.shape[-2]
+        # use representatives of the ideal basis lying in the same nappe
+        # of the light cone, so that their barycenter is timelike
+        # whatever the signs of the given representatives are
+        same_nappe = self.ideal_basis * np.where(
+            self.ideal_basis[..., :1] < 0, -1, 1)
+        midpoints = np.sum(same_nappe, axis=-2) / self.ideal_basis.shape[-2]
 
         # first guess for the spacelike complement: a vector which is
         # orthogonal to the subspace for the Euclidean form (so it never
